@@ -443,6 +443,14 @@ pub fn explore_c01(rep: &mut Report, thorough: bool) {
         let t = print_file(&f);
         (f, t)
     }));
+    // hand-written pool shared with C04: variables at every scope (plain and `some`) read once and several times, forward and
+    // backward named references, when-skipped rules
+    let pool = crate::c04::extra_pool();
+    rep.extra.insert("variable_pool_programs".into(), serde_json::json!(pool.len()));
+    files.extend(pool.into_iter().map(|f| {
+        let t = print_file(&f);
+        (f, t)
+    }));
     let n = files.len() * docs.len();
     let deadline = crate::par::deadline_secs(if thorough { 3000 } else { 40 });
     let res = crate::par::run(
